@@ -256,6 +256,61 @@ func registerVX() {
 		m.events = append(m.events, mustStr(args[0]))
 		return nil
 	}
+	intrinsics[p+"Emit"] = func(m *Machine, fr *frame, args []Value) Value {
+		s, ok := concreteStr(args[0])
+		if !ok {
+			m.unsupported("vx.Emit of a symbolic string")
+		}
+		m.E.Emitted = append(m.E.Emitted, s)
+		return nil
+	}
+	intrinsics[p+"Hex"] = func(m *Machine, fr *frame, args []Value) Value {
+		b := m.sliceBytes(args[0].(Slice))
+		out := make([]byte, 0, 2*len(b))
+		for _, t := range b {
+			if !t.IsConst() {
+				m.unsupported("vx.Hex of symbolic bytes")
+			}
+			out = append(out, "0123456789abcdef"[t.Val>>4], "0123456789abcdef"[t.Val&15])
+		}
+		return string(out)
+	}
+	intrinsics[p+"Param"] = func(m *Machine, fr *frame, args []Value) Value {
+		name := mustStr(args[0])
+		def := mustInt(args[1])
+		if v, ok := m.E.Opt.Params[name]; ok {
+			n, err := strconv.Atoi(v)
+			if err != nil {
+				panic("vx.Param " + name + ": " + err.Error())
+			}
+			return m.i64(int64(n))
+		}
+		return m.i64(int64(def))
+	}
+	intrinsics[p+"BytesEq"] = func(m *Machine, fr *frame, args []Value) Value {
+		return m.bytesEq(m.sliceBytes(args[0].(Slice)), m.sliceBytes(args[1].(Slice)))
+	}
+	intrinsics[p+"Equal"] = func(m *Machine, fr *frame, args []Value) Value {
+		a, b := args[0].(Iface), args[1].(Iface)
+		if a.T == nil || b.T == nil {
+			return m.C.Bool(a.T == nil && b.T == nil)
+		}
+		if !types.Identical(a.T, b.T) {
+			return m.C.False
+		}
+		m.env["nilEqEmpty"] = true
+		defer delete(m.env, "nilEqEmpty")
+		return m.deepEqual(fr, a.T, a.V, b.V, 0)
+	}
+	intrinsics[p+"And"] = func(m *Machine, fr *frame, args []Value) Value {
+		return m.C.And(args[0].(*smt.Term), args[1].(*smt.Term))
+	}
+	intrinsics[p+"Or"] = func(m *Machine, fr *frame, args []Value) Value {
+		return m.C.Or(args[0].(*smt.Term), args[1].(*smt.Term))
+	}
+	intrinsics[p+"Implies"] = func(m *Machine, fr *frame, args []Value) Value {
+		return m.C.Implies(args[0].(*smt.Term), args[1].(*smt.Term))
+	}
 	intrinsics[p+"Symbolic"] = func(m *Machine, fr *frame, args []Value) Value { return m.C.True }
 	intrinsics[p+"IsConcreteRun"] = func(m *Machine, fr *frame, args []Value) Value { return m.C.False }
 	intrinsics[p+"Time"] = vxTime
